@@ -351,4 +351,176 @@ def gdataOfXP {K : Type} (n : Nat) (V : XP K) : GData K :=
       if a < n then (if b < n then V.xx a b else V.xp a (b - n))
       else (if b < n then V.xp b (a - n) else V.pp (a - n) (b - n)) }
 
+/-! ## registers with holes: `state(modes)` reads `modes` as subsystem indices (fix `986d6a2` on main) -/
+
+/-- `ModeMap._map`: entry `m` is the axis of subsystem `m`, `none` when it was deleted; `get_modes()` -/
+def activeModes (map : List (Option Nat)) : List Nat :=
+  (List.range map.length).filter fun m => (map.getD m none).isSome
+
+/-- `FockBackend._remap_modes(modes)` for a list: `[map_[m] for m in modes]` (IndexError beyond the map), then
+`not valid(modes) or None in submap` ⇒ ValueError -/
+def remapModes (map : List (Option Nat)) (modes : List Nat) : Except Err (List Nat) :=
+  if modes.any (fun m => decide (map.length ≤ m)) then .error .indexError
+  else if modes.isEmpty || decide (modes.length > map.length) || modes.any (fun m => (map.getD m none).isNone) then
+    .error .valueError
+  else .ok (modes.map fun m => (map.getD m none).getD 0)
+
+/-- `FockBackend.state(modes)` on a register whose mode map is `map` (`n` axes): duplicate check, remapping to axes,
+reduction and transposition as before; the last component are the subsystem indices the mode names carry
+(`get_modes()[axis]`) -/
+def fockBackendStateR {K : Type} [Zero K] [Add K] [Mul K] (cj : K → K) (D n : Nat) (pure : Bool)
+    (map : List (Option Nat)) (modes : Option (List Nat)) (st : Tens K) : Except Err (Bool × Nat × Tens K × List Nat) :=
+  match modes with
+  | none => .ok (pure, n, st, (List.range n).map fun a => (activeModes map).getD a 0)
+  | some ms =>
+    if !noDup ms then .error .valueError
+    else
+      match remapModes map ms with
+      | .error e => .error e
+      | .ok r =>
+        match fockBackendState cj D n pure (some r) st with
+        | .error e => .error e
+        | .ok (p, k, T) => .ok (p, k, T, r.map fun a => (activeModes map).getD a 0)
+
+/-- the invariant `ModeMap` keeps: the axis of an active subsystem is the number of active subsystems below it -/
+def WellFormedMap (map : List (Option Nat)) : Prop :=
+  ∀ m, m < map.length → map.getD m none = none ∨
+    map.getD m none = some (((List.range m).filter fun x => (map.getD x none).isSome).length)
+
+/-- axis of subsystem `m` under the invariant -/
+def axisOf (map : List (Option Nat)) (m : Nat) : Nat :=
+  ((List.range m).filter fun x => (map.getD x none).isSome).length
+
+/-- `GaussianBackend.state(modes)`: `None` ⇒ all active subsystems; an index that is not active ⇒ ValueError; the rows of a
+deleted mode stay in place, so subsystem `m` sits in rows `2m, 2m+1` of the xpxp data of `nlen` stored modes.  Last
+component: the subsystem indices the mode names carry. -/
+def gaussBackendStateA {K : Type} (nlen : Nat) (active : List Nat) (modes : Option (List Nat)) (xpxp : GData K) :
+    Except Err (Nat × GData K × List Nat) :=
+  let ms := modes.getD active
+  if ms.any (fun i => !active.contains i) then .error .valueError
+  else
+    match gaussBackendState nlen ms xpxp with
+    | .error e => .error e
+    | .ok (k, r) => .ok (k, r, ms)
+
+/-- `BosonicBackend.state(modes)`: `modes = sorted(modes)` labels the data (fix `d248f7a` on main) -/
+def bosonicBackendLabels (modes : List Nat) : List Nat := modes.mergeSort fun a b => decide (a ≤ b)
+
+/-! ## the einsum string of `reduced_dm` / `FockBackend.state`, letter by letter
+
+Letters are numbers (`indices[j]` ↦ `j`).  `keep_indices = indices[:2k]`, `trace_indices = indices[2k : k + n]`,
+`ind = [i * 2 for i in trace_indices]`, then `ind.insert(m, keep_indices[2ctr : 2ctr + 2])` for every kept `m` in
+ascending order.  An entry of `ind` is the pair of letters of one axis pair. -/
+
+/-- Python `list.insert(i, x)` -/
+def pyInsert {α : Type} (l : List α) (i : Nat) (x : α) : List α := l.take i ++ x :: l.drop i
+
+def indLoop (modes : List Nat) : List Nat → Nat → List (Nat × Nat) → List (Nat × Nat)
+  | [], _, ind => ind
+  | m :: ms, ctr, ind =>
+    if modes.contains m then indLoop modes ms (ctr + 1) (pyInsert ind m (2 * ctr, 2 * ctr + 1))
+    else indLoop modes ms ctr ind
+
+/-- the list `ind` after the loop (`k = len(modes)`) -/
+def indList (n : Nat) (modes : List Nat) : List (Nat × Nat) :=
+  indLoop modes (List.range n) 0
+    ((List.range (n - modes.length)).map fun t => (2 * modes.length + t, 2 * modes.length + t))
+
+/-- letter of input axis `a` -/
+def letterOf (ind : List (Nat × Nat)) (a : Nat) : Nat :=
+  let p := ind.getD (a / 2) (0, 0)
+  if a % 2 = 0 then p.1 else p.2
+
+/-- `Σ` over the values of the letters in `ls` -/
+def sumLetters {K : Type} [Zero K] [Add K] (D : Nat) : List Nat → ((Nat → Nat) → K) → (Nat → Nat) → K
+  | [], f, val => f val
+  | l :: ls, f, val => sumTo D fun v => sumLetters D ls f (fun x => if x = l then v else val x)
+
+/-- `np.einsum("".join(ind) + "->" + keep_indices, rho)`: output position `j` carries letter `j` (`j < nout`), every other
+letter of the input is summed -/
+def einsumLetters {K : Type} [Zero K] [Add K] (D : Nat) (ind : List (Nat × Nat)) (nout : Nat) (ρ : Tens K) : Tens K :=
+  fun idx =>
+    let free := ((List.range (2 * ind.length)).map (letterOf ind)).filter (fun l => decide (nout ≤ l)) |>.eraseDups
+    sumLetters D free
+      (fun val => ρ (fun a => if a < 2 * ind.length then
+          (if letterOf ind a < nout then idx (letterOf ind a) else val (letterOf ind a)) else 0))
+      (fun _ => 0)
+
+/-! ## the contract of `np.argsort` / `np.sort` (any implementation) -/
+
+/-- `σ` is an argsort of `l`: a permutation of the positions along which `l` is non-decreasing -/
+def IsArgsort (l σ : List Nat) : Prop :=
+  σ.Perm (List.range l.length) ∧ (σ.map fun a => l.getD a 0).Pairwise (· ≤ ·)
+
+/-- `s` is `l` sorted -/
+def IsSorted (l s : List Nat) : Prop := s.Perm l ∧ s.Pairwise (· ≤ ·)
+
+/-! ## Gaussian `poly_quad_expectation(A, d, k, phi)` -/
+
+/-- `rot.T @ mu`, `rot.T @ cov @ rot` with `rot = xpxp_to_xxpp(block_diag(R(φ), …))`: `x' = c x + s p`, `p' = −s x + c p`
+for every mode -/
+def rotAll {K : Type} [Zero K] [Add K] [Neg K] [Mul K] (n : Nat) (c s : K) (g : GData K) : GData K :=
+  let R : Nat → Nat → K := fun a b =>
+    if a < n then (if b = a then c else if b = a + n then s else 0)
+    else (if b = a - n then -s else if b = a then c else 0)
+  { mu := fun a => sumTo (2 * n) fun b => R a b * g.mu b
+    cov := fun a b => sumTo (2 * n) fun i => sumTo (2 * n) fun j => R a i * g.cov i j * R b j }
+
+/-- modes with a non-zero row of `A` or a non-zero entry of `d` (`ex_modes`, ascending; the code's `set` order does not
+matter: it is only summed over) -/
+def exModes {K : Type} [Zero K] [DecidableEq K] (n : Nat) (A : Nat → Nat → K) (d : Nat → K) : List Nat :=
+  (List.range n).filter fun m =>
+    (List.range (2 * n)).any (fun b => A m b != 0 || A (m + n) b != 0) || d m != 0 || d (m + n) != 0
+
+/-- `poly_quad_expectation(A, d, k, phi)` of a Gaussian state: `(mean, var)`; `rotate` is `phi != 0` -/
+def gaussPolyQuad {K : Type} [Zero K] [Add K] [Sub K] [Neg K] [Mul K] [OfNat K 2] [DecidableEq K] (hbar : K) (n : Nat)
+    (A : Nat → Nat → K) (d : Nat → K) (k : K) (rotate : Bool) (c s : K) (g : GData K) : K × K :=
+  let ex := exModes n A d
+  if ex.isEmpty then (k, 0)
+  else
+    let g' := if rotate then rotAll n c s g else g
+    let N := 2 * n
+    let mu := g'.mu
+    let cov := g'.cov
+    let d2 : Nat → K := fun a => 2 * (sumTo N fun b => A a b * mu b) + d a
+    let k2 := (sumTo N fun a => sumTo N fun b => mu a * (A a b * mu b)) + (sumTo N fun a => mu a * d a) + k
+    let mean := (sumTo N fun a => sumTo N fun b => A a b * cov b a) + k2
+    let AC : Nat → Nat → K := fun a b => sumTo N fun i => A a i * cov i b
+    let var := 2 * (sumTo N fun a => sumTo N fun b => AC a b * AC b a)
+      + (sumTo N fun a => sumTo N fun b => d2 a * (cov a b * d2 b))
+    let corr := isumL (ex.map fun i => isumL (ex.map fun j =>
+      hbar * hbar * (A j i * A (j + n) (i + n) - A j (i + n) * A (j + n) i)))
+    (mean, var - corr)
+where
+  isumL {K : Type} [Zero K] [Add K] (l : List K) : K := l.foldr (· + ·) 0
+
+/-! ## bosonic weighted sums (one mode, components `(weight, reduced (mu, cov))`) -/
+
+def wsum {K : Type} [Zero K] [Add K] (l : List K) : K := l.foldr (· + ·) 0
+
+/-- bosonic `mean_photon(mode)` from the reduced components -/
+def bosonicMeanPhoton {K : Type} [Zero K] [Add K] [Sub K] [Mul K] [Div K] [OfNat K 2] [OfNat K 1] [OfNat K 4] (hbar : K)
+    (comps : List (K × GData K)) : K × K :=
+  let tr (g : GData K) := g.cov 0 0 + g.cov 1 1
+  let mm (g : GData K) := g.mu 0 * g.mu 0 + g.mu 1 * g.mu 1
+  let tr2 (g : GData K) := (g.cov 0 0 * g.cov 0 0 + g.cov 0 1 * g.cov 1 0) + (g.cov 1 0 * g.cov 0 1 + g.cov 1 1 * g.cov 1 1)
+  let mcm (g : GData K) := g.mu 0 * (g.cov 0 0 * g.mu 0 + g.cov 0 1 * g.mu 1) + g.mu 1 * (g.cov 1 0 * g.mu 0 + g.cov 1 1 * g.mu 1)
+  let mean := wsum (comps.map fun p => p.1 * (tr p.2 + mm p.2)) / (2 * hbar) - 1 / 2
+  let var := wsum (comps.map fun p => p.1 * (tr2 p.2 + 2 * mcm p.2)) / (2 * (hbar * hbar)) - 1 / 4
+  let var := var + wsum (comps.map fun p =>
+    p.1 * (((tr p.2 + mm p.2) / (2 * hbar) - 1 / 2) * ((tr p.2 + mm p.2) / (2 * hbar) - 1 / 2)))
+  (mean, var - mean * mean)
+
+/-- bosonic `quad_expectation(mode, phi)` from the reduced components -/
+def bosonicQuad {K : Type} [Zero K] [Add K] [Sub K] [Mul K] (c s : K) (comps : List (K × GData K)) : K × K :=
+  let mphi (g : GData K) := c * g.mu 0 + s * g.mu 1
+  let mean := wsum (comps.map fun p => p.1 * mphi p.2)
+  let cov := wsum (comps.map fun p => p.1 * (quad1 c s p.2).2)
+  let cov := cov + wsum (comps.map fun p => p.1 * (mphi p.2 * mphi p.2))
+  (mean, cov - mean * mean)
+
+/-- the normal densities bosonic `marginal(mode, xvec, phi)` mixes: `(weight, mean, variance)` per component -/
+def bosonicMarginalParams {K : Type} [Add K] [Mul K] (c s : K) (comps : List (K × GData K)) : List (K × K × K) :=
+  comps.map fun p => (p.1, (quad1 c s p.2).1, (quad1 c s p.2).2)
+
 end SFV.States
